@@ -277,7 +277,11 @@ func (e *c08Env) step(rs res.Resource, rq *res.Request, st c08Step) {
 			rs.RemoveEvent(1)
 		}
 	case "create":
-		rs.CreateEvent(map[string]interface{}{"c": true})
+		if st.Arg == "nil" {
+			rs.CreateEvent(nil) // a create event without data is still applied, published, heard
+		} else {
+			rs.CreateEvent(map[string]interface{}{"c": true})
+		}
 	case "delete":
 		rs.DeleteEvent()
 	case "reaccess":
@@ -415,6 +419,10 @@ func c08Run(c *core.Ctx, b core.Batch) {
 					}
 				case "custom":
 					st.Arg = []string{"", "nil", "reserved", "invalid", "nil"}[r.Intn(5)]
+				case "create":
+					if r.Intn(3) == 0 {
+						st.Arg = "nil"
+					}
 				}
 				steps = append(steps, st)
 				if !replied && r.Intn(4) == 0 {
@@ -580,6 +588,14 @@ func c08One(c *core.Ctx, env *c08Env, steps []c08Step, typ, key, rname string, i
 			}
 		case "create":
 			want["data"] = map[string]interface{}{"c": true}
+			if d["data"] == nil {
+				// one of the script's create events was made without data
+				for _, st := range steps {
+					if st.Ev == "create" && st.Arg == "nil" {
+						want["data"] = nil
+					}
+				}
+			}
 		case "delete":
 			if env.present["delete"] {
 				want["data"] = map[string]interface{}{"deleted": "data"}
